@@ -8,12 +8,13 @@
 -/
 import TamocV.Lemmas.EosRefine
 import TamocV.Props.C10
+import TamocV.Lemmas.C10Gen
 
 set_option linter.unusedSimpArgs false
 set_option linter.unusedVariables false
 
 namespace TamocV.Props.C10
-open TamocV.Gen TamocV.Lemmas.EosRefine
+open TamocV.Gen TamocV.Lemmas.EosRefine TamocV.Lemmas.C10Gen TamocV.Model.Eos TamocV.Lemmas.C10 TamocV.Lemmas.Eos
 
 /-- regenerated `mole_fraction`: invariant under a common non-zero factor on the masses -/
 theorem gen_mole_fraction_smul (c : ℝ) (hc : c ≠ 0) (m M : List ℝ) :
@@ -57,6 +58,39 @@ theorem gen_mole_fraction_append_zero (m M : List ℝ) (Mn : ℝ) (h : m.length 
   simp only [EosFullPy.mole_fraction, Num.real_sum]
   rw [List.zipWith_append h]
   simp
+
+/-- **Relabelling the components, proved about the REGENERATED `coefs`** (user / zero interaction matrix, i.e.
+    `calc_delta ≤ 0`; the group-contribution double loop is covered by the hand-model theorem `coefs_perm` and the
+    correspondence only): if every per-component list and the interaction matrix are relabelled by a permutation σ of
+    {0..n-1}, A and B are unchanged and Ap, Bp, y are relabelled the same way. -/
+theorem gen_coefs_perm_no_gc_partial (σ : Equiv.Perm ℕ) (n : ℕ) (hσ : PermOn n σ) (T P : ℝ) (m M Pc Tc w : List ℝ)
+    (δ A B G : List (List ℝ)) (cd : ℝ)
+    (hm : m.length = n) (hM : M.length = n) (hPc : Pc.length = n) (hTc : Tc.length = n) (hw : w.length = n)
+    (hδ : δ.length = n) (hδr : ∀ r ∈ δ, r.length = n) (hcd : cd ≤ 0) :
+    let g' := EosFullPy.coefs T P (permL σ n m) (permL σ n M) (permL σ n Pc) (permL σ n Tc) (permL σ n w) (permM σ n δ) A B G cd
+    let g := EosFullPy.coefs T P m M Pc Tc w δ A B G cd
+    g'.1 = g.1 ∧ g'.2.1 = g.2.1 ∧ (∀ i, i < n → g'.2.2.1.getD i 0 = g.2.2.1.getD (σ i) 0)
+      ∧ (∀ i, i < n → g'.2.2.2.1.getD i 0 = g.2.2.2.1.getD (σ i) 0)
+      ∧ (∀ i, i < n → g'.2.2.2.2.getD i 0 = g.2.2.2.2.getD (σ i) 0) := by
+  intro g' g
+  have r' := TamocV.Props.C01.coefs_refines_no_gc T P (permL σ n m) (permL σ n M) (permL σ n Pc) (permL σ n Tc) (permL σ n w)
+    (permM σ n δ) A B G cd n (permL_length σ n m) (permL_length σ n M) (permL_length σ n Pc) (permL_length σ n Tc)
+    (permM_length σ n δ) hcd
+  have r := TamocV.Props.C01.coefs_refines_no_gc T P m M Pc Tc w δ A B G cd n hm hM hPc hTc hδ hcd
+  simp only [ofL_permL σ n hσ m hm, ofL_permL σ n hσ M hM, ofL_permL σ n hσ Pc hPc, ofL_permL σ n hσ Tc hTc,
+    ofL_permL σ n hσ w hw, ofM_permM σ n hσ δ hδ hδr] at r'
+  rw [coefs_false_groups_irrel n T P _ _ _ _ _ (ofM G) (fun r => ofM G (σ r))] at r'
+  have hp := coefs_perm n σ hσ T P (ofL m) (ofL M) (ofL Pc) (ofL Tc) (ofL w) false (ofM G) (ofM A) (ofM B) (ofM δ)
+  simp only at hp
+  obtain ⟨pA, pB, pAp, pBp, py⟩ := hp
+  obtain ⟨a1, b1, c1, d1, e1⟩ := r'
+  obtain ⟨a2, b2, c2, d2, e2⟩ := r
+  have hs : ∀ i, i < n → σ i < n := fun i hi => (hσ i).mpr hi
+  refine ⟨by rw [a1, a2]; exact pA, by rw [b1, b2]; exact pB, ?_, ?_, ?_⟩
+  · intro i hi; rw [c1 i hi, c2 (σ i) (hs i hi)]; exact pAp i
+  · intro i hi; rw [d1 i hi, d2 (σ i) (hs i hi)]; exact pBp i
+  · intro i hi; rw [e1 i hi, e2 (σ i) (hs i hi)]; exact py i
+
 
 /-! ### non-vacuity -/
 example : EosFullPy.mole_fraction (([1, 3] : List ℝ).map fun x => 2 * x) [1, 1] = EosFullPy.mole_fraction [1, 3] [1, 1] :=
